@@ -370,9 +370,8 @@ Definition digest (argon : argon_oracle) (g : gen) (pw : bytes) : option bytes :
   | GCryptMd5 salt => Some (md5crypt pw salt)
   | GCryptSha is512 rounds salt =>
       let r := match rounds with Some r => r | None => ROUNDS_DEFAULT end in
-      Some (h64enc (map (fun t => nth t (shacrypt_raw (if is512 then sha512 else sha256) pw salt
-                                                        (N.to_nat r)) 0)
-                        (if is512 then MAP_SHA512 else MAP_SHA256)))
+      let out := shacrypt_raw (if is512 then sha512 else sha256) pw salt (N.to_nat r) in
+      Some (h64enc (map (fun t => nth t out 0) (if is512 then MAP_SHA512 else MAP_SHA256)))
   end.
 
 (* what the independent implementation stores for key [d] *)
